@@ -468,6 +468,18 @@ static err_t call_gf2(fc_ctx* c)
 		return ERR_OK;
 	qrMul(c->a[8], c->a[6], c->a[7], f, st);
 	qrSqr(c->a[6], c->a[8], f, st);
+	{
+		/* characteristic 2: x + y = x - y, -y = y */
+		word* s1 = (word*)sk_alloc(W(f->n));
+		word* s2 = (word*)sk_alloc(W(f->n));
+		qrAdd(s1, c->a[8], c->a[7], f);
+		qrSub(s2, c->a[8], c->a[7], f);
+		if (!wwEq(s1, s2, f->n))
+			return ERR_BAD_LOGIC;
+		qrNeg(s2, c->a[7], f);
+		if (!wwEq(s2, c->a[7], f->n))
+			return ERR_BAD_LOGIC;
+	}
 	if (!qrIsZero(c->a[6], f))
 		qrInv(c->a[7], c->a[6], f, st), qrMul(c->a[8], c->a[7], c->a[8], f, st);
 	qrTo(c->a[0], c->a[8], f, st);
